@@ -99,6 +99,19 @@ example : exPred.fits 0 := by
     subst hst
     intro b hb
     simp [PStep.preds] at hb
+/-- … and with unions, which bind tighter than unary minus and associate to the left: - a | /c | count(b) + 1
+    is ((-((a | /c) | count(b))) + 1) -/
+def exUnion : PE :=
+  .bin .add (.neg (.union (.union (.path (.rel (.name [] [97] [])) []) (.path .abs [.name [] [99] []]))
+      (.call1 .count (.path (.rel (.name [] [98] [])) [])))) (.num SF.one)
+example : exUnion.fits 0 := by simp [exUnion, PE.fits, PE.ul, PE.pl, level, pathOK, PStep.ok, PStep.preds, Fn.sig]
+example : exUnion.tree.code =
+    [.namePush [] [97], .evalLocPath, .pathRoot, .namePush [] [99], .evalLocPath, .union,
+     .namePush [] [98], .evalLocPath, .bltin .count, .union, .negate, .num SF.one, .add, ] := by
+  simp [exUnion, PE.tree, ET.code, XP.pathCode, XP.stepsCode, PStep.code, blkCode, binPI]
+/-- a union operand is a path-level expression: `a | -b` is not a union (the parser refuses it, too) -/
+example : ¬ (PE.union (.path (.rel (.name [] [97] [])) []) (.neg (.path (.rel (.name [] [98] [])) []))).fits 0 := by
+  simp [PE.fits, PE.pl]
 /-- and a shape that needs its parentheses does not fit without them: 1 - (2 - 3) written as 1 - 2 - 3 is
     another tree -/
 example : ¬ (PE.bin .sub (.num SF.one) (.bin .sub (.num SF.one) (.num SF.one))).fits 0 := by
